@@ -83,6 +83,22 @@ class Interp:
             return self.ev(e["e"], env)
         if k == "lit" and e.get("t") == "int":
             return lin(None, int(e["v"]))
+        if k == "lit" and e.get("t") == "bool":
+            return ("bool", bool(e["v"]) if not isinstance(e["v"], str) else e["v"] == "true")
+        if k == "bin" and e["op"] in ("<", ">", "<=", ">=", "==", "!="):
+            a, b = self.ev(e["lhs"], env), self.ev(e["rhs"], env)
+            if a[0] == "lin" and b[0] == "lin" and set(_ld(a)) <= {""} and set(_ld(b)) <= {""}:
+                x, y = _ld(a).get("", 0), _ld(b).get("", 0)
+                return ("bool", {"<": x < y, ">": x > y, "<=": x <= y, ">=": x >= y, "==": x == y, "!=": x != y}[e["op"]])
+            raise Unsupported("comparison of symbolic values " + show(e)[:60])
+        if (k == "bin" and e["op"] in ("&&", "||")) or (k == "un" and e["op"] == "!"):
+            return ("bool", self.cond(e, env))
+        if k == "macro" and e.get("n") == "matches" and e.get("a") and e.get("pat") is not None:
+            env2 = dict(env)
+            ok = self.bind(e["pat"], self.ev(e["a"][0], env), env2)
+            if ok and e.get("guard") is not None:
+                ok = self.cond(e["guard"], env2)
+            return ("bool", bool(ok))
         if k == "path":
             p = e["p"]
             if p == "None":
@@ -102,6 +118,8 @@ class Interp:
             base = self.ev(e["e"], env)
             if isinstance(base, dict) and e["f"] in base:
                 return base[e["f"]]
+            if isinstance(base, tuple) and base and base[0] == "tuple" and str(e["f"]).isdigit() and int(e["f"]) < len(base[1]):
+                return base[1][int(e["f"])]
             raise Unsupported("field " + show(e))
         if k == "tuple":
             return ("tuple", tuple(self.ev(x, env) for x in e["e"]))
@@ -164,6 +182,8 @@ class Interp:
                     names.append(pat["n"])
                 elif pat.get("k") == "p_wild":
                     names.append(None)
+                elif pat.get("k") == "p_tuple":
+                    names.append(pat)           # destructured below
                 else:
                     inner = [x for x in __import__("synq").walk(pat) if x.get("k") == "p_ident"]
                     if len(inner) != 1:
@@ -172,7 +192,10 @@ class Interp:
             if len(names) != len(args):
                 raise Unsupported("closure arity")
             for n, a in zip(names, args):
-                if n:
+                if isinstance(n, dict):
+                    if not self.bind(n, a, env):
+                        raise Unsupported("closure parameter pattern does not match its argument")
+                elif n:
                     env[n] = a
             return self.ev(node["body"], env)
         raise Unsupported("apply " + str(f)[:40])
